@@ -816,6 +816,63 @@ func init() {
 					}
 				})
 			}
+			// an added special scheme gets default-port elision - of exactly its configured port, of nothing when it has none -
+			// and special-scheme parsing (backslash as slash, a path that is never empty); bounded-exhaustive
+			{
+				tables := []struct {
+					cfg string
+					tab map[string]string
+				}{{"specialX", map[string]string{"sc": "99", "http": "80"}},
+					{"specialAdd", map[string]string{"ftp": "21", "http": "80", "https": "443", "ws": "80", "wss": "443", "sc": "99", "gopher": "70"}},
+					{"specialMany", map[string]string{"ftp": "21", "http": "80", "https": "443", "ws": "80", "wss": "443", "gopher": "70", "a": ""}}}
+				ports := []string{"", "0", "00", "000", "80", "080", "99", "70", "21", "443", "7", "65535", "65536", "8x"}
+				type pc struct {
+					cfg, scheme, dflt, port, tail string
+				}
+				var cases []pc
+				for _, t := range tables {
+					var names []string
+					for n := range t.tab {
+						names = append(names, n)
+					}
+					sort.Strings(names)
+					for _, n := range names {
+						for _, po := range ports {
+							for _, tail := range []string{"", "/", "\\a\\b", "/x?q#f"} {
+								cases = append(cases, pc{t.cfg, n, t.tab[n], po, tail})
+							}
+						}
+					}
+				}
+				c.Pool.Run(len(cases), func(d *Driver, i int) {
+					k := cases[i]
+					cfg := cfgFromDesc(k.cfg)
+					in := k.scheme + "://h"
+					if k.port != "" {
+						in += ":" + k.port
+					}
+					in += k.tail
+					c.Count("special-port\x00"+k.cfg+in, true, "added-special-schemes")
+					o := c.cmpParse(d, cfg, nil, in, allButVerrs, true, "added-special-schemes", i)
+					cs := Case{Kind: "parse", Cfg: cfg.Desc, Input: in, Family: "added-special-schemes", Index: i}
+					v, perr := strconv.Atoi(k.port)
+					valid := k.port == "" || (perr == nil && v <= 65535 && !strings.ContainsAny(k.port, "+-"))
+					if !valid {
+						if o.Kind == "U" {
+							c.Report(Finding{Class: "violation", What: fmt.Sprintf("%s under %s: an invalid port is accepted: %s", in, k.cfg, o.String()), Case: cs})
+						}
+						return
+					}
+					wantPort := ""
+					if k.port != "" && !(k.dflt != "" && strconv.Itoa(v) == k.dflt) {
+						wantPort = strconv.Itoa(v)
+					}
+					wantPath := map[string]string{"": "/", "/": "/", "\\a\\b": "/a/b", "/x?q#f": "/x"}[k.tail]
+					if o.Kind != "U" || o.Fields[fPort] != wantPort || o.Fields[fPathname] != wantPath || o.Fields[fSpecial] != "1" {
+						c.Report(Finding{Class: "violation", What: fmt.Sprintf("%s under a parser whose special-scheme table gives %q the default port %q: expected a special URL with port %q and pathname %q, got %s", in, k.scheme, k.dflt, wantPort, wantPath, o.String()), Case: cs})
+					}
+				})
+			}
 			c.Pool.Run(20000*c.Scale, func(d *Driver, i int) {
 				r := rng.Fork(i)
 				var base *string
